@@ -50,6 +50,10 @@ def run(chk):
         "SPECIFICATION constants: exact SI metres per DistanceUnit (MM.si_m) and the relative band 5e-4 (MM.unit_band) "
         "inside which a distance counts as 'at' the tolerance (left open by the property)",
         "coq/Gen/UnitTables.v regenerated from distance_unit.rs by translator/tr_units.py (checked bit for bit by C09)",
+        "translator/tr_haversine.py + translator/rsparse.py (the range guards of haversine_distance_meters, the tolerance table of "
+        "RTreePlugin::new / EdgeRtreeInputPlugin::new, the conversion direction and comparison of validate_tolerance / within_tolerance "
+        "compiled to coq/Gen/Haversine.v on every run; fails closed; coq/Props/GenHaversine.v proves Model/MapMatch.v equal to them for "
+        "all inputs, so a misreading shows up in the vertex / edge streams); the haversine VALUE stays an oracle",
         "Rust harness harness/src/bin/c16.rs and this driver"]
     chk.assumptions = [
         "coordinates are f32-exact and |dx|,|dy| small enough that dx*dx+dy*dy is exact in f32 (multiples of 1/16 degree, "
@@ -71,7 +75,17 @@ def run(chk):
     # JSON-layer theorems print the kernel primitive type `float : Set` (Base/Json.v's JFloat); the driver reports it
     # under kernel_primitives. No primitive float OPERATION is used by any theorem (the reading of a JSON float is the
     # Section parameter fq; Prim2SF appears only in Model/MapMatchRun.v).
-    chk.proofs(extra_targets=["Model/MapMatchRun.vo"])
+    # Gen/Haversine.v: the haversine range guards, the tolerance table of the two constructors and the two tolerance tests
+    # are regenerated from the Rust source; Props/GenHaversine.v proves Model/MapMatch.v equal to them for all inputs
+    hres = vf.run_translators(which=["haversine"]).get("haversine", {"ok": False, "msg": "translator tr_haversine.py missing"})
+    chk.coverage["translator"]["haversine"] = {k: hres.get(k) for k in ("ok", "msg", "digest", "files", "changed")}
+    if not hres.get("ok"):
+        chk.violation("broken-correspondence", "translator", {"translator": "tr_haversine", "error": hres.get("msg")},
+                      hres.get("msg"), "util/geo/haversine.rs, vertex_rtree/plugin.rs and edge_rtree/edge_rtree_input_plugin.rs have the "
+                      "shape the translator knows (fail closed)",
+                      detail="coq/Gen/Haversine.v could not be regenerated; the previous definitions (if any) are used below",
+                      found=False, key="translator-haversine")
+    chk.proofs(extra_targets=["Model/MapMatchRun.vo"], extra_props=["Props/GenHaversine.v"])
 
     binp = vf.build_harness("c16")
     quick = chk.tier == "quick"
